@@ -51,15 +51,28 @@ class SimClock:
         self.log = log
         self.sleeps = 0
         self.slept_us = 0
+        self._pend_n = 0
+        self._pend_us = 0
 
     def sleep(self, seconds):
-        us = int(round(float(seconds) * 1e6))
+        # kept cheap: a host may legitimately sleep a 4.6 h poll delay in millisecond slices (16 million calls);
+        # consecutive sleeps are logged as one event when the next request arrives (flush)
+        us = int(round(seconds * 1e6))
         if us < 0:
             raise ValueError('sleep length must be non-negative')
+        if us == 0 and seconds > 0:
+            us = 1              # a real sleep of a positive duration always lets time pass (deadline loops must terminate)
         self.now_us += us
-        self.slept_us += us
-        self.sleeps += 1
-        self.log.add('sleep', us)
+        self._pend_n += 1
+        self._pend_us += us
+
+    def flush(self):
+        if self._pend_n:
+            self.sleeps += self._pend_n
+            self.slept_us += self._pend_us
+            self.log.add('sleep', self._pend_us, self._pend_n if self._pend_n < 3 else 'sliced')
+            self._pend_n = 0
+            self._pend_us = 0
 
     def time(self):
         return 1.7e9 + self.now_us / 1e6
@@ -162,6 +175,7 @@ class SimDfuSe:
 
     # -- the one entry point dfu.py uses ----------------------------------
     def ctrl_transfer(self, bmRequestType, bRequest, wValue=0, wIndex=0, data_or_wLength=None, timeout=None):
+        self.clock.flush()
         self.nreq += 1
         if self.nreq > self.step_cap:
             self.log.add('BUDGET')
